@@ -179,6 +179,16 @@ type storeEnv struct {
 	// truncatedBefore: values of txs with id < this may be gone
 	truncatedBefore uint64
 	extraIndexes    int
+	markAcks        bool
+	// valueOptionalFrom: values of transactions with id >= this (recovered
+	// although never acknowledged) may be unreadable, never different. 0 = none.
+	valueOptionalFrom uint64
+	optLo, optHi      uint64 // an additional range of such ids (from an earlier crash)
+	crashDepth        int    // number of crashes this store directory went through
+}
+
+func (e *storeEnv) valueOptional(id uint64) bool {
+	return (e.valueOptionalFrom != 0 && id >= e.valueOptionalFrom) || (e.optLo != 0 && id >= e.optLo && id <= e.optHi)
 }
 
 func newStoreEnv(r *simcore.Run, cfg stCfg, dir string) *storeEnv {
@@ -256,6 +266,9 @@ func (e *storeEnv) ack(hdr *store.TxHeader, entries []ledEntry) *ledTx {
 		e.maxAcked = hdr.ID
 	}
 	e.mu.Unlock()
+	if e.markAcks {
+		e.r.Disk.Mark("ack", int64(hdr.ID))
+	}
 	return lt
 }
 
@@ -285,12 +298,18 @@ func sameEntries(a []ledEntry, tx *store.Tx) bool {
 // reads back exactly as acknowledged, the chain and the binary linking are
 // correct, the reported state is the last committed transaction.
 func (e *storeEnv) verifyHistory(what string, quiescent bool) uint64 {
-	r := e.r
-	st := e.st
-	n, nAlh := st.CommittedAlh()
 	e.mu.Lock()
 	maxAcked := e.maxAcked
 	e.mu.Unlock()
+	return e.verifyHistoryFrom(what, quiescent, maxAcked)
+}
+
+// verifyHistoryFrom: maxAcked is the highest id whose commit had been
+// acknowledged at the instant the store state under test corresponds to.
+func (e *storeEnv) verifyHistoryFrom(what string, quiescent bool, maxAcked uint64) uint64 {
+	r := e.r
+	st := e.st
+	n, nAlh := st.CommittedAlh()
 	if n < maxAcked {
 		r.Violation("acked-missing", "", "%s: committed frontier is %d but transaction %d was acknowledged", what, n, maxAcked)
 	}
@@ -324,6 +343,10 @@ func (e *storeEnv) verifyHistory(what string, quiescent bool) uint64 {
 				leaves[i] = refLeaf(alhs[i][:])
 			}
 			wantBl = refMTH(leaves)
+		}
+		if hdr.BlRoot != wantBl && e.crashDepth >= 2 {
+			r.Finding("binary-linking", "C03:stale-aht-leaf-after-repeated-crash", "%s: tx %d BlRoot %x is not the reference Merkle root over Alh[1..%d] %x (the hash tree kept a leaf of a transaction that was lost in an earlier crash and whose id was assigned again)", what, id, hdr.BlRoot[:6], hdr.BlTxID, wantBl[:6])
+			r.EndRun()
 		}
 		if hdr.BlRoot != wantBl {
 			r.Violation("binary-linking", "", "%s: tx %d BlRoot %x is not the reference Merkle root over Alh[1..%d] %x", what, id, hdr.BlRoot[:6], hdr.BlTxID, wantBl[:6])
@@ -400,6 +423,10 @@ func (e *storeEnv) compareTx(what string, lt *ledTx, tx *store.Tx) {
 		if err != nil && le.ExpiresAt != 0 && !time.Now().Before(time.Unix(le.ExpiresAt, 0)) && errors.Is(err, store.ErrExpiredEntry) {
 			continue // values of expired entries are withheld by design
 		}
+		if err != nil && e.valueOptional(lt.ID) {
+			r.Probe("unacked-tx-recovered-without-value")
+			continue
+		}
 		if err != nil {
 			r.Violation("read-value", "", "%s: value of entry %d (%q) of tx %d is unreadable: %v", what, i, le.Key, lt.ID, err)
 		}
@@ -466,7 +493,7 @@ func (e *storeEnv) kvModel(n uint64, prefix []byte) (map[string][]kvVersion, []s
 				v.Value = lt.Entries[i].Value
 			} else if id >= e.truncatedBefore {
 				val, err := e.st.ReadValue(te)
-				if err != nil {
+				if err != nil && !e.valueOptional(id) && !(v.Expires != 0 && errors.Is(err, store.ErrExpiredEntry)) {
 					e.r.Violation("read-value", "", "value of tx %d entry %d unreadable: %v", id, i, err)
 				}
 				v.Value = val
@@ -489,8 +516,11 @@ func (e *storeEnv) verifyIndex(what string, n uint64) {
 	r := e.r
 	st := e.st
 	ctx := context.Background()
-	if err := st.WaitForIndexingUpto(ctx, n); err != nil {
-		e.idxViol("index-wait", "%s: WaitForIndexingUpto(%d) failed: %v", what, n, err)
+	wctx, cancel := context.WithTimeout(ctx, 30*time.Minute) // simulated time
+	werr := st.WaitForIndexingUpto(wctx, n)
+	cancel()
+	if werr != nil {
+		e.idxViol("index-wait", "%s: indexing did not catch up with tx %d within 30 simulated minutes: %v", what, n, werr)
 	}
 	model, keys := e.kvModel(n, nil)
 	now := time.Now()
@@ -615,7 +645,40 @@ func (e *storeEnv) idxViol(class, format string, args ...interface{}) {
 		e.r.Finding(class, "C04:indexer-overlap-after-compaction", "two indexing goroutines ran concurrently on one index after CompactIndexes restarted it; then: "+format, args...)
 		e.r.EndRun()
 	}
-	e.r.Violation(class, "", format, args...)
+	e.r.Violation(class, "", format+"\n  committed log: "+e.dumpLog(), args...)
+}
+
+// dumpLog renders the committed log compactly (for violation messages).
+func (e *storeEnv) dumpLog() string {
+	n, _ := e.st.CommittedAlh()
+	tx := store.NewTx(16, 64)
+	out := ""
+	for id := uint64(1); id <= n && id <= 60; id++ {
+		if err := e.st.ReadTx(id, false, tx); err != nil {
+			out += fmt.Sprintf(" %d:<%v>", id, err)
+			continue
+		}
+		out += fmt.Sprintf(" %d:[", id)
+		for i, te := range tx.Entries() {
+			if i > 0 {
+				out += " "
+			}
+			out += string(te.Key())
+			if md := te.Metadata(); md != nil {
+				if md.Deleted() {
+					out += "(del)"
+				}
+				if md.NonIndexable() {
+					out += "(noidx)"
+				}
+				if md.IsExpirable() {
+					out += "(exp)"
+				}
+			}
+		}
+		out += "]"
+	}
+	return out
 }
 
 func (e *storeEnv) nIndexes() int { return 1 + e.extraIndexes }
@@ -653,6 +716,9 @@ func (e *storeEnv) compareRef(what, k string, ref store.ValueRef, v kvVersion, r
 	}
 	if err != nil && v.Expires != 0 && !time.Now().Before(time.Unix(v.Expires, 0)) && errors.Is(err, store.ErrExpiredEntry) {
 		return // values of expired entries are withheld by design
+	}
+	if err != nil && e.valueOptional(v.Tx) {
+		return
 	}
 	if err != nil {
 		e.idxViol("index-value", "%s(%q): value of tx %d unreadable: %v", what, k, v.Tx, err)
@@ -698,6 +764,10 @@ func (e *storeEnv) verifyProofs(what string, n uint64, states []uint64) {
 		}
 		if err != nil {
 			r.Violation("proof", "", "%s: DualProof(%d,%d) failed: %v", what, id, n, err)
+		}
+		if !store.VerifyDualProof(proof, id, n, srcAlh, tgt.Alh()) && e.crashDepth >= 2 {
+			r.Finding("proof-verify", "C03:stale-aht-leaf-after-repeated-crash", "%s: a client holding the acknowledged state of tx %d cannot verify consistency with the state of tx %d (stale hash-tree leaf after repeated crashes)", what, id, n)
+			r.EndRun()
 		}
 		if !store.VerifyDualProof(proof, id, n, srcAlh, tgt.Alh()) {
 			r.Violation("proof-verify", "", "%s: a client holding the acknowledged state of tx %d cannot verify consistency with the state of tx %d", what, id, n)
